@@ -140,9 +140,11 @@ def _run(orc, meas, skipped, idx, it, r, progs, mod, k):
                                              min(it.get("nperm", 2), s5.nperms(s5.facet_cellname(prog.cell, e))))]
         else:
             confs = entity_confs(prog, it, rnd)
-        plan = []                                   # (ent, perm, xs or None)
-        if confs is not None:
-            plan = [(e, p, None) for e, p in confs for _ in range(it.get("ninputs", 3))]
+        plan = []                                   # (ent, perm, xs or None, extra)
+        if it.get("explicit"):
+            plan = [(e["ent"], e["perm"], e["x"], e) for e in it["explicit"]]
+        elif confs is not None:
+            plan = [(e, p, None, {}) for e, p in confs for _ in range(it.get("ninputs", 3))]
         else:
             ne = prog.nentities()
             for _ in range(it.get("npairs", 3)):
@@ -155,13 +157,15 @@ def _run(orc, meas, skipped, idx, it, r, progs, mod, k):
                         continue
                     npm = s5.nperms(s5.facet_cellname(prog.cell, fp))
                     for _ in range(it.get("nperm", 2)):
-                        plan.append(([fp, fm], [rnd.randrange(npm), rnd.randrange(npm)], [xp, xm]))
-        for ent, perm, xs_given in plan:
-            try:
-                ci = orc.conf(pi, ent, perm)
-            except OutOfModel as e:
-                skipped.append({"item": idx, "why": f"out of model: {e}"})
-                continue
+                        plan.append(([fp, fm], [rnd.randrange(npm), rnd.randrange(npm)], [xp, xm], {}))
+        for ent, perm, xs_given, extra in plan:
+            use_oracle = extra.get("oracle", True)
+            if use_oracle:
+                try:
+                    ci = orc.conf(pi, ent, perm)
+                except OutOfModel as e:
+                    skipped.append({"item": idx, "why": f"out of model: {e}"})
+                    continue
             if xs_given is not None:
                 xs = xs_given
             else:
@@ -172,6 +176,10 @@ def _run(orc, meas, skipped, idx, it, r, progs, mod, k):
                     xs.append(s5.make_geometry(prog, gkind, rnd, facet=fac))
             lo, hi = it.get("data_range", (-3, 3))
             w, c = s5.random_data(prog, rnd, cx, lo, hi)
+            if extra.get("w") is not None:
+                w = extra["w"]
+            if extra.get("c") is not None:
+                c = extra["c"]
             case = {"x": xs, "w": w, "c": c}
             shape = s5.tensor_shape(prog)
             n = int(np.prod(shape)) if shape else 1
@@ -188,8 +196,9 @@ def _run(orc, meas, skipped, idx, it, r, progs, mod, k):
                 mod.call(kern, A, w_, c_, x_, np.array(ent + [0], dtype=np.int32)[:2].copy(),
                          np.array(perm + [0], dtype=np.uint8)[:2].copy())
             A = A - np.array(A0, dtype=np.dtype(scalar))
-            cid = orc.case(ci, xs, w, c)
-            meas.append({"case": cid, "item": idx, "A": [[float(z.real), float(z.imag)] for z in A.astype(complex)],
+            cid = orc.case(ci, xs, w, c) if use_oracle else None
+            meas.append({"case": cid, "item": idx, "tag": extra.get("tag"), "w": w, "c": c, "x": xs,
+                         "needs_perm": bool(getattr(use[0], "needs_facet_permutations", False)) if use else None, "A": [[float(z.real), float(z.imag)] for z in A.astype(complex)],
                          "scalar": scalar, "nops": nops_of(prog), "itype": prog.itype, "sid": prog.subdomain_id,
                          "ent": ent, "perm": perm, "nkernels": len(use), "descriptor": r.get("descriptor"),
                          "expect_descriptor": _expect_descr(prog, r) if prog.itype == "expression" else None})
